@@ -29,6 +29,14 @@ fn main() {
         let j2 = |x: &[f64]| SMatrix::<f64, 2, 2>::new(2.0 * x[0] + 3.0, 1.0, 0.0, 2.0);
         if let Ok(x) = newton::<f64, _, _, 2>(&[start, 2.0], f2, j2, 1e-9, 100) { if f2(x.as_slice()).norm() > 1e-6 { found.push(format!("newton on the 2-d system from ({start}, 2) returned {:?} (residual {:e})", x.as_slice(), f2(x.as_slice()).norm())); } }
     }
+    // secant (Broyden) on non-affine systems from starts near the root: the loop after the first step is exercised
+    for start in [[0.9f64, 2.1], [1.1, 1.9], [1.2, 2.2], [0.8, 1.8]] {
+        let fs = |x: &[f64]| SVector::<f64, 2>::new(x[0] * x[0] + x[1] - 3.0, x[0] + x[1] * x[1] - 5.0);
+        match secant::<f64, _, 2>(&start, fs, 1e-4, 1e-9, 200) {
+            Ok(x) => if fs(x.as_slice()).norm() > 1e-6 || (x[0] - 1.0).abs() > 1e-5 || (x[1] - 2.0).abs() > 1e-5 { found.push(format!("secant on (x^2+y-3, x+y^2-5) from {start:?} returned {:?} (residual {:e})", x.as_slice(), fs(x.as_slice()).norm())); },
+            Err(e) => found.push(format!("secant on (x^2+y-3, x+y^2-5) from {start:?}: Err({e})")),
+        }
+    }
     // Steffensen on a contraction with tolerance near machine precision
     fn g(x: f64) -> f64 { 0.5 * x.cos() }
     for tol in [1e-6, 1e-10, 1e-13] {
